@@ -386,7 +386,7 @@ impl CaseDriver for C04 {
     fn describe(&self, tier: Tier) -> Describe {
         Describe {
             rule: format!(
-                "LefLibrary values from a grammar walk with {} foci (minimal, header statements x versions 5.3-5.8/none, UNITS with every legal DATABASE MICRONS value, PROPERTYDEFINITIONS, BEGINEXT, SITE, fixed VIA, generated VIA, MACRO statements incl. every class/sub-class, PIN attributes with every enum variant, the nine antenna keys, ports/layer options, RECT/POLYGON/PATH x MASK x ITERATE + layer VIAs, OBS, DENSITY, PROPERTY, a combined two-macro library); every field present with a distinct witness value by default, each costed alternative = another variant / absent / one of {} other numbers / {} other names; value deviations <= {}. Each value is rendered by the independent renderer in the default form and with every single lexical deviation (sibling-statement permutation, 8 whitespace/comment gap variants at every token boundary incl. non-ASCII comments, lower/mixed case per keyword and globally, every alternative decimal spelling per number, END LIBRARY omitted, PROPERTY pairs joined){}. distinct = distinct text; non-trivial = the text contains a statement beyond VERSION / END LIBRARY.",
+                "LefLibrary values from a grammar walk with {} foci (minimal, header statements x versions 5.3-5.8/none, UNITS with every legal DATABASE MICRONS value, PROPERTYDEFINITIONS, BEGINEXT, SITE, fixed VIA, generated VIA, MACRO statements incl. every class/sub-class, PIN attributes with every enum variant, the nine antenna keys, ports/layer options, RECT/POLYGON/PATH x MASK x ITERATE + layer VIAs, OBS, DENSITY, PROPERTY, a combined two-macro library); every field present with a distinct witness value by default, each costed alternative = another variant / absent / one of {} other numbers / {} other names; value deviations <= {}. Each value is rendered by the independent renderer in the default form and with every single lexical deviation (sibling-statement permutation, 8 whitespace/comment gap variants at every token boundary incl. non-ASCII comments, lower / alternating (aBcD) / title (Abcd) / upper-but-last (ABCd) case per keyword and globally, every alternative decimal spelling per number, END LIBRARY omitted, PROPERTY pairs joined){}. distinct = distinct text; non-trivial = the text contains a statement beyond VERSION / END LIBRARY.",
                 lefgen::FOCI.len(),
                 lefgen::NUM_ALTS.len(),
                 lefgen::NAME_ALTS.len(),
